@@ -56,6 +56,12 @@ pub struct ScenarioSpec {
     /// of the scenario and travels in a `sid.<name>` tag. Never set for outlines.
     #[serde(default, skip_serializing_if = "Option::is_none")]
     pub display: Option<String>,
+    /// Outlines only: tags on the `Examples:` block (inherited by every expanded scenario) ...
+    #[serde(default, skip_serializing_if = "Vec::is_empty")]
+    pub examples_tags: Vec<String>,
+    /// ... and whether an `Examples:` block without a table (rows not filled in yet) comes first.
+    #[serde(default, skip_serializing_if = "std::ops::Not::not")]
+    pub examples_empty_first: bool,
 }
 
 /// The harness's own evaluation of the few tag expressions it generates:
@@ -398,7 +404,22 @@ impl Emit {
             Some(vals) => {
                 let line = self.ln(&format!("{indent}Scenario Outline: {} <v>", s.name));
                 let steps = self.steps(&format!("{indent}  "), &s.steps, " <v>");
+                let mut blocks = Vec::new();
+                if s.examples_empty_first {
+                    self.ln("");
+                    let l = self.ln(&format!("{indent}  Examples:"));
+                    blocks.push(gh::Examples {
+                        keyword: "Examples".into(),
+                        name: None,
+                        description: None,
+                        table: None,
+                        tags: Vec::new(),
+                        span: gh::Span::default(),
+                        position: gh::LineCol { line: l, col: indent.len() + 3 },
+                    });
+                }
                 self.ln("");
+                self.tags(&format!("{indent}  "), &s.examples_tags);
                 let ex_line = self.ln(&format!("{indent}  Examples:"));
                 let t_line = self.ln(&format!("{indent}    | v |"));
                 let mut rows = vec![vec!["v".to_owned()]];
@@ -411,19 +432,22 @@ impl Emit {
                     name: format!("{} <v>", s.name),
                     description: None,
                     steps,
-                    examples: vec![gh::Examples {
-                        keyword: "Examples".into(),
-                        name: None,
-                        description: None,
-                        table: Some(gh::Table {
-                            rows,
+                    examples: {
+                        blocks.push(gh::Examples {
+                            keyword: "Examples".into(),
+                            name: None,
+                            description: None,
+                            table: Some(gh::Table {
+                                rows,
+                                span: gh::Span::default(),
+                                position: gh::LineCol { line: t_line, col: indent.len() + 5 },
+                            }),
+                            tags: s.examples_tags.clone(),
                             span: gh::Span::default(),
-                            position: gh::LineCol { line: t_line, col: indent.len() + 5 },
-                        }),
-                        tags: Vec::new(),
-                        span: gh::Span::default(),
-                        position: gh::LineCol { line: ex_line, col: indent.len() + 3 },
-                    }],
+                            position: gh::LineCol { line: ex_line, col: indent.len() + 3 },
+                        });
+                        blocks
+                    },
                     tags: s.tags.clone(),
                     span: gh::Span::default(),
                     position: gh::LineCol { line, col: indent.len() + 1 },
